@@ -36,6 +36,13 @@ pub struct HostileReader<'a> {
 }
 
 impl<'a> HostileReader<'a> {
+    /// Reader positioned at `start` inside `data` (the n-th frame of a stream).
+    pub fn new_at(data: &'a [u8], start: usize, schedule: Vec<Step>, default_chunk: usize) -> Self {
+        let mut r = Self::new(data, schedule, default_chunk);
+        r.pos = start;
+        r
+    }
+
     pub fn new(data: &'a [u8], schedule: Vec<Step>, default_chunk: usize) -> Self {
         Self { data, pos: 0, schedule, default_chunk, next: 0, trace: Vec::new() }
     }
@@ -185,6 +192,25 @@ pub fn run(ctx: &Ctx) -> i32 {
             }
             slot.begin(|| format!("from_reader schedules on {}", hex(&bytes)));
             let base = outcome_bytes(&bytes);
+            // "the same bytes": what lies behind the frame in the reader is not part of the frame
+            // (and, by C02, never influences the result) — a reader holding more data must give
+            // what the slice holding exactly the frame gives
+            if let Some(nb) = vref::bits::frame_bits(vref::bits::getbits(&bytes, 1, 5) as u8) {
+                if bytes.len() > nb / 8 {
+                    let exact = outcome_bytes(&bytes[..nb / 8]);
+                    col.count("schedules_run", 1);
+                    col.count("schedules_trailing_data", 1);
+                    let (o, _) = outcome_reader(&bytes, vec![], 3);
+                    if o != exact {
+                        col.add(Finding {
+                            prop: "C19".into(),
+                            sig: "C19|reader_differs_from_slice|data_behind_frame".into(),
+                            detail: format!("from_reader on a reader holding {} more bytes behind the frame gave {o:?}; from_bytes of exactly the frame gives {exact:?}", bytes.len() - nb / 8),
+                            input: json!({"frame_hex": hex(&bytes), "schedule": "", "default_chunk": 3}),
+                        });
+                    }
+                }
+            }
             col.count("frames_judged", 1);
             col.seen(&bytes);
             if let Outcome::Panic(loc) = &base {
